@@ -7,7 +7,7 @@ LEVEL = 'proof'
 
 def corpus(rng, tier, shared):
     cases = []; kinds = {}
-    n = 60 if tier == 'quick' else 1500
+    n = 60 if tier == 'quick' else 4000
     for i in range(n):
         cid, lines, ks = c01.build_case(rng, i)
         cases.append(('h%d' % i, lines)); kinds['api-history+save+load'] = kinds.get('api-history+save+load', 0) + 1
